@@ -757,8 +757,11 @@ def analyse_netlist(doc):
                 viol.append(dict(rule="netlist.legal.illegal_identifier", msg=f"declared identifier {ident!r} is not a Verilog identifier", detail=dict(name=ident)))
             elif ident in KEYWORDS_1800_2017:
                 viol.append(dict(rule=f"netlist.reserved.{ident}", msg=f"declared identifier {ident!r} is a reserved word", detail=dict(name=ident)))
-    undeclared = sorted(nm for nm in by_name if nm not in seen)
-    if undeclared:
+    # cross-check of the declaration parser.  Only names of objects that kept ONE name through the conversion can be expected in the text; when
+    # the conversion itself is inconsistent (rules above) the violations are the finding, not a parser problem
+    unstable = {nms[0] for nms in by_obj.values() if len(set(nms)) > 1}
+    undeclared = sorted(nm for nm in by_name if nm not in seen and nm not in unstable)
+    if undeclared and not viol:
         raise C02MachineryError(f"{doc['design']}: names handed out by the namespace but found in no declaration: {undeclared[:8]} "
                                 f"(declaration parser incomplete or the design uses undeclared nets)")
     disamb = sum(1 for k, nms in by_obj.items() if base_of[k] is not None and nms[0] != base_of[k])
